@@ -46,7 +46,8 @@ REAL = ['asyncssh SFTP client (SFTPClient, SFTPClientFile, parallel I/O), '
         'population']
 STUB = ['event loop + clock', 'TCP', 'executor', 'adversarial SFTP responder '
         '+ in-memory file model']
-PROBES = ['replies_reordered', 'short_reads_served', 'read_error_injected',
+PROBES = ['replies_reordered', 'replies_held_late', 'handle_sequences',
+          'short_reads_served', 'read_error_injected',
           'write_error_injected', 'early_eof', 'op_raised', 'op_ok',
           'parallel_requests', 'real_server', 'sparse_copy']
 
@@ -76,7 +77,8 @@ def gen_plan(rng):
     ops = []
 
     for _ in range(rng.between(1, 4)):
-        kind = rng.choice(['get', 'put', 'copy', 'read', 'write', 'append'])
+        kind = rng.choice(['get', 'put', 'copy', 'read', 'write', 'append',
+                           'handle'])
         size = rng.choice(SIZES) if rng.chance(70) else \
             rng.between(0, 4 * bs * max(1, min(mr, 8)) + 3)
         size = min(size, bs * 150, 300000)
@@ -88,10 +90,42 @@ def gen_plan(rng):
         elif kind == 'write':
             op['off'] = rng.choice([0, 0, 1, 10, size // 2])
             op['base'] = rng.choice([0, size // 2, size + 7])
+        elif kind == 'handle':
+            # several calls through one open file: the position carries over
+            op['size'] = size = min(size, 20 * bs, 60000)
+            steps = []
+
+            for _s in range(rng.between(2, 6)):
+                k = rng.weighted([('w', 40), ('r', 35), ('seek', 20),
+                                  ('tell', 5)])
+                off = rng.choice([None, None, 0, 0, 1, size // 2, size,
+                                  size + 3])
+
+                if k == 'w':
+                    steps.append(['w', rng.choice([0, 1, bs, bs + 1,
+                                                   3 * bs + 5, size // 3]),
+                                  off])
+                elif k == 'r':
+                    steps.append(['r', rng.choice([-1, 0, 1, bs, 2 * bs + 1,
+                                                   size]), off])
+                elif k == 'seek':
+                    steps.append(['seek', rng.choice([0, 1, size // 2, -1,
+                                                      size]),
+                                  rng.choice([0, 0, 1, 2])])
+                else:
+                    steps.append(['tell'])
+
+            op['steps'] = steps
 
         ops.append(op)
 
     policy = {'reorder': rng.chance(75)}
+
+    if not real and rng.chance(50):
+        # some replies come late: held back while later requests, and the
+        # requests that depend on their replies, are served
+        policy['late'] = [[rng.below(14), rng.choice([2, 4, 8, 20])]
+                          for _ in range(rng.between(1, 3))]
 
     if not real:
         if rng.chance(50):
@@ -143,8 +177,26 @@ def valid_plan(plan):
 
         for op in plan['ops']:
             if op['op'] not in ('get', 'put', 'copy', 'read', 'write',
-                                'append') or not 0 <= op['size'] <= 300000:
+                                'append', 'handle') or \
+                    not 0 <= op['size'] <= 300000:
                 return False
+
+            if op['op'] == 'handle':
+                for st in op['steps']:
+                    if st[0] not in ('w', 'r', 'seek', 'tell') or \
+                            len(st) != {'w': 3, 'r': 3, 'seek': 3,
+                                        'tell': 1}[st[0]]:
+                        return False
+
+                    if st[0] == 'w' and not 0 <= st[1] <= 200000:
+                        return False
+
+                    if st[0] in ('w', 'r') and st[2] is not None and \
+                            not 0 <= st[2] <= 400000:
+                        return False
+
+                    if st[0] == 'seek' and st[2] not in (0, 1, 2):
+                        return False
 
             if op['size'] > plan['block_size'] * 150:
                 return False
@@ -154,6 +206,11 @@ def valid_plan(plan):
         if sr is not None and (not sr or any(not 1 <= x <= 1000
                                              for x in sr)):
             return False
+
+        for ent in plan['policy'].get('late', []):
+            if len(ent) != 2 or not 0 <= ent[0] <= 1000 or \
+                    not 0 <= ent[1] <= 64:
+                return False
 
         if est_requests(plan) > 600:
             return False
@@ -279,6 +336,94 @@ def run_plan(plan, sched_seed=None, sched_replay=None):
                     rec['ok'] = got == src
                     rec['detail'] = 'copy %r bytes vs source %d' % \
                         (None if got is None else len(got), len(src))
+                elif kind == 'handle':
+                    sim.probes['handle_sequences'] += 1
+                    set_remote(rname, src)
+                    model = bytearray(src)
+                    pos = 0
+                    bad = None
+
+                    async with sftp.open(rname, 'r+b', block_size=bs,
+                                         max_requests=mr) as f:
+                        for j, st in enumerate(op['steps']):
+                            if pos is None and (
+                                    st[0] == 'tell' or
+                                    (st[0] in ('w', 'r') and st[2] is None)
+                                    or (st[0] == 'seek' and st[2] == 1)):
+                                # position not defined by the documentation
+                                # at this point (see below)
+                                continue
+
+                            if st[0] == 'w':
+                                data = gen_bytes('c12h.%d.%d' % (i, j), 0,
+                                                 st[1])
+                                at = pos if st[2] is None else st[2]
+                                await f.write(data, st[2])
+
+                                if data:
+                                    if at > len(model):
+                                        model.extend(bytes(at - len(model)))
+
+                                    model[at:at + len(data)] = data
+
+                                pos = at + len(data)
+                            elif st[0] == 'r':
+                                at = pos if st[2] is None else st[2]
+                                got = await f.read(st[1], st[2])
+                                want = bytes(model[at:]) if st[1] < 0 else \
+                                    bytes(model[at:at + st[1]])
+
+                                if st[1] < 0:
+                                    good = got == want
+                                else:
+                                    good = want[:len(got)] == got and \
+                                        (len(got) > 0 or not want)
+
+                                if not good and bad is None:
+                                    bad = 'step %d read(%d, %r) at %d gave ' \
+                                        '%d bytes that are not the file\'s ' \
+                                        '(model has %d there)' % (
+                                            j, st[1], st[2], at, len(got),
+                                            len(want))
+
+                                pos = at + len(got)
+
+                                if not got and st[2] is not None:
+                                    # an explicit-offset read that returns
+                                    # nothing: whether the position moves to
+                                    # that offset is not documented
+                                    pos = None
+                            elif st[0] == 'seek':
+                                ref = {0: 0, 1: pos, 2: len(model)}[st[2]]
+                                target = ref + st[1]
+
+                                if target < 0:
+                                    continue
+
+                                got = await f.seek(st[1], st[2])
+                                pos = target
+
+                                if got != target and bad is None:
+                                    bad = 'step %d seek(%d, %d) returned ' \
+                                        '%r, expected %d' % (j, st[1], st[2],
+                                                             got, target)
+                            else:
+                                got = await f.tell()
+
+                                if got != pos and bad is None:
+                                    bad = 'step %d tell() returned %r, ' \
+                                        'position is %d' % (j, got, pos)
+
+                    got = remote_bytes(rname)
+
+                    if bad is None and got != bytes(model):
+                        bad = 'file content after steps %r differs from ' \
+                            'the model (%r vs %d bytes)' % (
+                                op['steps'], None if got is None
+                                else len(got), len(model))
+
+                    rec['ok'] = bad is None
+                    rec['detail'] = bad or 'handle sequence ok'
                 elif kind == 'read':
                     set_remote(rname, src)
 
@@ -398,6 +543,7 @@ def run_plan(plan, sched_seed=None, sched_replay=None):
 
         if s is not None:
             sim.probes['replies_reordered'] += s.reordered
+            sim.probes['replies_held_late'] += s.held_late
             sim.probes['short_reads_served'] += s.short_served
 
             if s.max_outstanding > 1:
